@@ -45,15 +45,20 @@ theorem filter_tag_sub (P : List Pend) (t : Tag) : ∀ x ∈ P.filter (fun x => 
 theorem pendOkW_filter {P : List Pend} {ns na : Nat} {rel : List Nat} {next : Nat} (h : PendOkW P ns na rel next)
     (q : Pend → Bool) : PendOkW (P.filter q) ns na rel next := by
   refine ⟨List.Nodup.sublist (filter_map_sublist _ _ _) h.tags,
-    List.Nodup.sublist (filter_filterMap_sublist _ _ _) h.slots, ?_, ?_, ?_⟩
+    List.Nodup.sublist (filter_filterMap_sublist _ _ _) h.slots, ?_, ?_, ?_, h.relLe⟩
   · intro p hp; exact h.shape p (List.mem_filter.mp hp).1
   · intro p hp; exact h.minted p (List.mem_filter.mp hp).1
   · intro p hp; exact h.sids p (List.mem_filter.mp hp).1
 
 /-- releasing slot `k`: the slot joins `released`; legitimate when no remaining request uses it -/
 theorem pendOkW_release {P : List Pend} {ns na : Nat} {rel : List Nat} {next : Nat} (h : PendOkW P ns na rel next)
-    (k : Nat) (hk : ∀ p ∈ P, slotOf p ≠ some k) : PendOkW P ns na (rel ++ [k]) next := by
-  refine ⟨h.tags, h.slots, ?_, h.minted, h.sids⟩
+    (k : Nat) (hk : ∀ p ∈ P, slotOf p ≠ some k) (hkle : k ≤ ns) : PendOkW P ns na (rel ++ [k]) next := by
+  refine ⟨h.tags, h.slots, ?_, h.minted, h.sids, ?_⟩
+  rotate_left
+  · intro x hx
+    rcases List.mem_append.mp hx with hx | hx
+    · exact h.relLe x hx
+    · simp at hx; subst hx; exact hkle
   intro p hp
   have := h.shape p hp
   have hs := hk p hp
